@@ -262,7 +262,11 @@ def run(point):
             refused = e
         if refused is not None:
             # a refusal must leave the dataset exactly as it was
-            legit = isinstance(refused, ValueError) and op["op"] == "overwrite" and nparts == 0
+            # refusals that are legitimate and judged only for leaving the state unchanged: partition overwrite
+            # on an unpartitioned dataset; any write to a dataset emptied of all row groups (it has no paths
+            # left to derive its partitioning from)
+            legit = isinstance(refused, ValueError) and ((op["op"] == "overwrite" and nparts == 0)
+                                                         or len(pf.row_groups) == 0)
             try:
                 after_key = canonical(path)[0]
             except Exception as e2:
